@@ -127,7 +127,7 @@ def load_functional_constraints(functionHandler):
     -------
     Convert the functionHandler file into a callable function
     """
-    functionName = os.path.basename(functionHandler).strip(".py")
+    functionName = os.path.splitext(os.path.basename(functionHandler))[0]
     dirName = os.path.dirname(functionHandler)
     sys.path.insert(0, os.path.expanduser(dirName))
     module = __import__(functionName)
